@@ -155,8 +155,21 @@ fn case_json(m: &Mapping, full_bmp: bool) -> Value {
 fn format4_header_mismatch(t: &rc::Cmap4) -> Option<String> {
     let seg_x2 = t.seg_count_x2() as u32;
     let seg = seg_x2 / 2;
-    if seg == 0 || seg_x2 % 2 != 0 || seg as usize != t.end_code().len() || seg as usize != t.start_code().len() {
-        return Some(format!("segCountX2 = {seg_x2} for {} end codes", t.end_code().len()));
+    let n = seg as usize;
+    if seg == 0
+        || seg_x2 % 2 != 0
+        || n != t.end_code().len()
+        || n != t.start_code().len()
+        || n != t.id_delta().len()
+        || n != t.id_range_offsets().len()
+    {
+        return Some(format!(
+            "segCountX2 = {seg_x2} for {} end codes, {} start codes, {} deltas, {} range offsets",
+            t.end_code().len(),
+            t.start_code().len(),
+            t.id_delta().len(),
+            t.id_range_offsets().len()
+        ));
     }
     let log2 = 31 - seg.leading_zeros();
     let want = (2 * (1u32 << log2), log2, 2 * seg - 2 * (1u32 << log2));
@@ -374,11 +387,12 @@ fn check_compiled(run: &Run, m: &Mapping, full_bmp: bool, font_bytes: &[u8], l: 
         match rec.subtable(cmap.offset_data()) {
             Ok(rc::CmapSubtable::Format4(t)) => {
                 h.str("f4");
+                // checked access: the four arrays come from the library under test
                 for i in 0..t.start_code().len() {
-                    h.u64(t.start_code()[i].get() as u64);
-                    h.u64(t.end_code()[i].get() as u64);
-                    h.i64(t.id_delta()[i].get() as i64);
-                    h.u64(t.id_range_offsets()[i].get() as u64);
+                    h.u64(t.start_code().get(i).map_or(u64::MAX, |v| v.get() as u64));
+                    h.u64(t.end_code().get(i).map_or(u64::MAX, |v| v.get() as u64));
+                    h.i64(t.id_delta().get(i).map_or(i64::MAX, |v| v.get() as i64));
+                    h.u64(t.id_range_offsets().get(i).map_or(u64::MAX, |v| v.get() as u64));
                 }
                 h.u64(t.glyph_id_array().len() as u64);
                 if let Some(what) = format4_header_mismatch(&t) {
@@ -1006,8 +1020,13 @@ fn check_uvs_with(run: &Run, spec: &[SelSpec], base: &[(u32, u16)], pos: usize, 
         .add_raw(Tag::new(b"maxp"), maxp_bytes())
         .build();
     let r = guard(|| {
-        let font = FontRef::new(&font_bytes).expect("font parses");
-        let cmap = font.cmap().expect("cmap parses");
+        let (font, cmap) = match FontRef::new(&font_bytes).map_err(|e| format!("{e}")).and_then(|f| f.cmap().map(|c| (f.clone(), c)).map_err(|e| format!("{e}"))) {
+            Ok(x) => x,
+            Err(e) => {
+                run.violation("compiled cmap (with a format-14 sub-table) does not parse", &e, case());
+                return;
+            }
+        };
         let charmap = Charmap::new(&font);
         let mut c14 = None;
         for rec in cmap.encoding_records() {
@@ -1401,8 +1420,13 @@ fn check_uvs_counts(run: &Run, d: &Value, l: &mut Local) {
         .add_raw(Tag::new(b"maxp"), maxp_bytes())
         .build();
     let r = guard(|| {
-        let font = FontRef::new(&font_bytes).expect("font parses");
-        let cmap = font.cmap().expect("cmap parses");
+        let (font, cmap) = match FontRef::new(&font_bytes).map_err(|e| format!("{e}")).and_then(|f| f.cmap().map(|c| (f.clone(), c)).map_err(|e| format!("{e}"))) {
+            Ok(x) => x,
+            Err(e) => {
+                run.violation("compiled cmap (with a format-14 sub-table) does not parse", &e, case());
+                return;
+            }
+        };
         let charmap = Charmap::new(&font);
         let charmap_ix = MappingIndex::new(&font).charmap(&font);
         let mut c14 = None;
@@ -1769,7 +1793,10 @@ fn check_edge(run: &Run, d: &Value, l: &mut Local) {
         .add_raw(Tag::new(b"maxp"), maxp_bytes())
         .build();
     let r = guard(|| {
-        let font = FontRef::new(&font_bytes).expect("font parses");
+        let Ok(font) = FontRef::new(&font_bytes) else {
+            run.violation(&format!("built font does not parse ({family} input)"), "", case());
+            return;
+        };
         let cmap = match font.cmap() {
             Ok(c) => c,
             Err(e) => {
@@ -1921,6 +1948,19 @@ fn edge_family(run: &Run) {
 
 // ---------------------------------------------------------------------------
 
+/// Safety net around a whole family: every per-case call into the library is already guarded, but if
+/// anything still panics (also inside worker threads) the run must end with a verdict (exit 1), never
+/// with a harness stop.
+fn family(run: &Run, name: &str, f: impl FnOnce()) {
+    if let Err(p) = guard(f) {
+        run.violation(
+            &format!("panic outside the per-case guards (family {name}): {} in {}", p.kind(), p.site()),
+            &format!("{} ({}:{})", p.message, p.file, p.line),
+            json!({"kind": "family", "family": name}),
+        );
+    }
+}
+
 fn body(run: &Run, replay: Option<&Value>) {
     run.rule("a case is one input mapping (sorted (code point, glyph id) list) or one Cmap14 description; its observation is the compiled segment structure (format-4 start/end/delta/rangeOffset vectors, format-12 groups, encoding records) or the expanded sequence list; non-trivial = at least one mapping/sequence was encoded and the table compiled; distinct = distinct structures");
     run.assume("the oracle is the input mapping itself; the wrapping font has maxp.numGlyphs = 0xFFFF so every used glyph id (<= 0xFFFE) is below the glyph count");
@@ -1979,12 +2019,12 @@ fn body(run: &Run, replay: Option<&Value>) {
             return;
         }
     }
-    point_family(run);
-    run_family(run);
-    block_family(run);
-    uvs_family(run);
-    combined_family(run);
-    direct_format4_family(run);
-    uvs_counts_family(run);
-    edge_family(run);
+    family(run, "point_family", || point_family(run));
+    family(run, "run_family", || run_family(run));
+    family(run, "block_family", || block_family(run));
+    family(run, "uvs_family", || uvs_family(run));
+    family(run, "combined_family", || combined_family(run));
+    family(run, "direct_format4_family", || direct_format4_family(run));
+    family(run, "uvs_counts_family", || uvs_counts_family(run));
+    family(run, "edge_family", || edge_family(run));
 }
